@@ -53,6 +53,12 @@ CHECKS = {
    design="5 (C16), 4.10",
    note="observations are compared through a 30-bit hash inside the trace (collisions would hide a difference with probability 2^-30 per pair) and in full for the explanation; sources: Lang.tla programs, ill-typed mutants, std-using and erroneous hand-written programs",
    technique="TLC-generated histories + trace validation of recorded sessions against Session.tla"),
+ "C06": dict(
+   level="model_checking",
+   text="(a) Prims.tla: the domain contract of the exported primitives - for every primitive (table read from the running VM) x every tuple of boundary values of its argument types the outcome is a value or an error; TLC enumerates the product, every call runs in an isolated worker process where an abort / signal / hang is data. (b) Session.tla usability monitor: all histories of 3-4 evaluations over 9 program classes (ok, explicit error, overflow, unmatched pattern, type error, failing primitive, failing import, deep failure) on one VM plus simulated longer ones; every evaluation is a trace event (observation hash, frames, stack length) validated by TLC against Trace_Session.tla: back at base after every evaluation, same answer as a fresh VM. (c) deep-data / deep-recursion / dead-green-thread scenarios in isolated workers.",
+   design="5 (C06), 4.10",
+   note="primitives with side effects on the sandbox (io, fs, process, http, sleep) are not called; the harness builds gluon with the dev profile (overflow checks on), as the repository's own tests do",
+   technique="TLC enumeration of the primitive contract (Prims.tla) + trace validation of sessions (Session.tla) in crash-isolating workers"),
 }
 NOT_BUILT = "check not built yet (work in progress; see DESIGN.md section 5)"
 NA = {}
